@@ -5,7 +5,7 @@ use crate::common::*;
 use crate::httpgen::*;
 use humphrey::http::proxy::proxy_request;
 use humphrey::http::Request;
-use humphrey_server::config::{CacheConfig, Config, LoadBalancerMode, LoggingConfig};
+use humphrey_server::config::{BlacklistConfig, BlacklistMode, CacheConfig, Config, LoadBalancerMode, LoggingConfig};
 use humphrey_server::logger::LogLevel;
 use humphrey_server::proxy::{proxy_handler, EqMutex, LoadBalancer};
 use humphrey_server::rand::Lcg;
@@ -111,6 +111,65 @@ pub fn exec(f: &[String]) -> Option<String> {
             // proxy_handler uses a fixed 5 s timeout; proxy_request the 300 ms given here
             let limit = if f[5] == "-" { TIMEOUT_MS + SLACK_MS } else { 5000 + SLACK_MS };
             Some(format!("{} | {} | {}", r, hxl(&received), if ms <= limit { "time-ok".to_string() } else { format!("SLOW:{}", ms) }))
+        }
+        // rot <ntargets> <mode b|f> <sequence of a|b> : requests through the server's proxy_handler, one after the other, with a
+        // round-robin balancer over <ntargets> live upstreams and a blacklist; `a` = from an address that is not listed,
+        // `b` = from a listed one. Output: per request `<status>:<index of the upstream that served it or ->`.
+        ("rot", 4) => {
+            let n: usize = f[1].parse().ok()?;
+            let mode = if f[2] == "f" { BlacklistMode::Forbidden } else { BlacklistMode::Block };
+            let mut addrs = Vec::new();
+            let stop = Arc::new(std::sync::atomic::AtomicBool::new(false));
+            let mut hs = Vec::new();
+            for i in 0..n {
+                let l = TcpListener::bind("127.0.0.1:0").ok()?;
+                addrs.push(l.local_addr().ok()?.to_string());
+                l.set_nonblocking(true).ok();
+                let stop = stop.clone();
+                hs.push(std::thread::spawn(move || {
+                    while !stop.load(std::sync::atomic::Ordering::SeqCst) {
+                        match l.accept() {
+                            Ok((mut s, _)) => {
+                                s.set_nonblocking(false).ok();
+                                s.set_read_timeout(Some(Duration::from_millis(200))).ok();
+                                let mut buf = [0u8; 4096];
+                                let mut got = Vec::new();
+                                while !got.windows(4).any(|w| w == b"\r\n\r\n") {
+                                    match s.read(&mut buf) { Ok(0) | Err(_) => break, Ok(k) => got.extend_from_slice(&buf[..k]) }
+                                }
+                                let body = format!("up{}", i);
+                                let _ = s.write_all(format!("HTTP/1.1 200 OK\r\nContent-Length: {}\r\n\r\n{}", body.len(), body).as_bytes());
+                            }
+                            Err(_) => std::thread::sleep(Duration::from_millis(1)),
+                        }
+                    }
+                }));
+            }
+            let state = Arc::new(AppState::from(Config {
+                cache: CacheConfig { size_limit: 0, time_limit: 0 },
+                logging: LoggingConfig { level: LogLevel::Error, console: false, file: None },
+                blacklist: BlacklistConfig { list: vec!["10.0.0.9".parse().unwrap()], mode },
+                ..Config::default()
+            }));
+            let lb = EqMutex::new(LoadBalancer { targets: addrs, mode: LoadBalancerMode::RoundRobin, index: 0, lcg: Lcg::new() });
+            let mut res = Vec::new();
+            for c in f[3].chars() {
+                let peer: SocketAddr = if c == 'b' { "10.0.0.9:40000".parse().unwrap() } else { "127.0.0.1:40000".parse().unwrap() };
+                let req = parse_request(b"GET /api/x HTTP/1.1\r\nHost: h\r\n\r\n", peer)?;
+                let st = state.clone();
+                let r = guarded(|| proxy_handler(req, st, &lb, "/api/*"));
+                res.push(match r {
+                    Err(_) => "PANIC".to_string(),
+                    Ok(resp) => {
+                        let code: u16 = resp.status_code.into();
+                        let body = String::from_utf8_lossy(&resp.body).to_string();
+                        format!("{}:{}", code, body.strip_prefix("up").filter(|x| x.chars().all(|c| c.is_ascii_digit()) && !x.is_empty()).unwrap_or("-"))
+                    }
+                });
+            }
+            stop.store(true, std::sync::atomic::Ordering::SeqCst);
+            for h in hs { let _ = h.join(); }
+            Some(res.join(","))
         }
         // lb <mode r|x> <ntargets> <threads> <picks per thread> <lcg seed> → the picks (in lock order for 1 thread; sorted counts otherwise)
         ("lb", 6) => {
@@ -264,6 +323,27 @@ pub fn gen(out: &mut Out, thorough: bool, seed: u64) {
         if r.contains("SLOW") { out.count("proxy:slow"); }
         let fr: Vec<&str> = c.iter().map(|s| s.as_str()).collect();
         out.case(&fr, r, true);
+    }
+    // rotation through the real handler, with refused (blacklisted) requests in between: they take no turn
+    {
+        let mut rng2 = Rng::new(seed ^ 0x907);
+        let mut seqs: Vec<(usize, &str, String)> = Vec::new();
+        for n in 1..=4usize {
+            for mode in ["b", "f"] {
+                for s in ["aaaa", "abab", "baab", "aabbaa", "bbbb", "abbbba", "ababababab"] { seqs.push((n, mode, s.to_string())); }
+                for _ in 0..(if thorough { 30 } else { 4 }) {
+                    let len = rng2.range(1, 14) as usize;
+                    seqs.push((n, mode, (0..len).map(|_| if rng2.chance(1, 3) { 'b' } else { 'a' }).collect()));
+                }
+            }
+        }
+        for (n, mode, s) in seqs {
+            let f = vec!["rot".to_string(), n.to_string(), mode.to_string(), s.clone()];
+            let r = exec(&f).unwrap_or_else(|| "UNSUPPORTED".into());
+            out.count(&format!("rot:targets={}", n));
+            let fr: Vec<&str> = f.iter().map(|x| x.as_str()).collect();
+            out.case(&fr, &r, n >= 2 && s.contains('b'));
+        }
     }
     // load balancer
     for mode in ["r", "x"] {
